@@ -469,4 +469,123 @@ theorem layoutCore_shape (f : Flags) (width : Nat) (prec : Option Nat) (base : N
         ¬ (f.hash = true ∧ base = 8) → k = 0) :=
   layoutFrom_shape f width prec base upper neg mag _
 
+
+/-! ### `__gmp_doscan` on the formats of the round trip -/
+
+def valOuts : Scanned → List Out
+  | .z v => [.z v]
+  | .q n d => [.q n d]
+  | .none => []
+
+/-- the scan base of a conversion character (doscan.c:650-700) -/
+def ConvChar (c : Char) (b : Nat) : Prop :=
+  (c = 'd' ∧ b = 10) ∨ (c = 'u' ∧ b = 10) ∨ (c = 'i' ∧ b = 0) ∨ (c = 'o' ∧ b = 8) ∨ (c = 'x' ∧ b = 16) ∨ (c = 'X' ∧ b = 16)
+
+theorem scanRun_pct (fs : List Char) (st : SS) : scanRun ('%' :: fs) .text st = scanRun fs (.spec {}) st := by
+  rw [scanRun]; simp (decide := true)
+
+theorem scanRun_type (T : Char) (hT : T = 'Z' ∨ T = 'Q') (fs : List Char) (sp : SP) (st : SS) (hn : sp.inNum = false) :
+    scanRun (T :: fs) (.spec sp) st = scanRun fs (.spec { sp with p := { sp.p with type := T } }) st := by
+  rcases hT with hT | hT <;> subst hT <;>
+  · rw [scanRun]; simp (decide := true) [hn]
+
+theorem scanRun_conv (c : Char) (b : Nat) (hc : ConvChar c b) (fs : List Char) (sp : SP) (st : SS) (hn : sp.inNum = false)
+    (hT : sp.p.type = 'Z' ∨ sp.p.type = 'Q') :
+    scanRun (c :: fs) (.spec sp) st =
+      (match doNumeric { sp with p := { sp.p with base := b } } st with
+       | .inl r => some r
+       | .inr st => scanRun fs .text st) := by
+  have hm : isMpirType sp.p.type = true := by rcases hT with h | h <;> rw [h] <;> decide
+  have hF : ¬ sp.p.type = 'F' := by rcases hT with h | h <;> rw [h] <;> decide
+  rcases hc with ⟨h1, h2⟩ | ⟨h1, h2⟩ | ⟨h1, h2⟩ | ⟨h1, h2⟩ | ⟨h1, h2⟩ | ⟨h1, h2⟩ <;> subst h1 h2 <;>
+  · rw [scanRun]; simp (decide := true) [hn, hm, hF]; rfl
+
+theorem scanRun_n (st : SS) :
+    scanRun ['%', 'n'] .text st = some (finishS { st with outs := st.outs ++ [.int st.chars] }) := by
+  rw [scanRun_pct, scanRun]; simp (decide := true) [scanRun]
+
+/-- `gmp_sscanf (inp, "%<T><c>%n", &x, &n)` for T = Z or Q, unfolded once and for all. -/
+theorem doscan_Tn (T c : Char) (b : Nat) (hT : T = 'Z' ∨ T = 'Q') (hc : ConvChar c b) (inp : List Char) :
+    doscan ['%', T, c, '%', 'n'] inp =
+      (if (gmpscan { base := b, type := T } (skipWhite inp).2).ret = -2 then
+        some { fields := -1, outs := [], rest := (skipWhite inp).2 }
+      else if (gmpscan { base := b, type := T } (skipWhite inp).2).ret = -1 then
+        some { fields := 0, outs := [], rest := (gmpscan { base := b, type := T } (skipWhite inp).2).rest }
+      else
+        some { fields := 1,
+               outs := valOuts (gmpscan { base := b, type := T } (skipWhite inp).2).val ++
+                 [.int (((skipWhite inp).1 + (gmpscan { base := b, type := T } (skipWhite inp).2).ret.toNat : Nat) : Int)],
+               rest := (gmpscan { base := b, type := T } (skipWhite inp).2).rest }) := by
+  unfold doscan
+  rw [scanRun_pct, scanRun_type T hT _ _ _ rfl, scanRun_conv c b hc _ _ _ rfl (by simpa using hT)]
+  simp only [doNumeric]
+  generalize hr : gmpscan { base := b, type := T } (skipWhite inp).2 = r
+  by_cases e2 : r.ret = -2
+  · simp [e2, eofS]
+  · by_cases e1 : r.ret = -1
+    · simp [e1, finishS]
+    · simp only [e2, e1, if_false]
+      cases hv : r.val <;> simp [valOuts, scanRun_n, finishS]
+
+
+/-! ### a printed field read by a fixed-base conversion -/
+
+theorem isDigitIn_range (b : Nat) (c : Char) (h : isDigitIn b c = true) : 48 ≤ c.toNat ∧ c.toNat ≤ 102 := by
+  obtain ⟨l0, l9, la, lf, lz, lA, lF, lZ, l8⟩ := lits
+  unfold isDigitIn at h
+  split at h <;>
+    simp only [cle, l0, l9, la, lf, lA, lF, Bool.and_eq_true, Bool.or_eq_true, decide_eq_true_eq] at h <;> omega
+
+theorem digit_not_special (b : Nat) (c : Char) (h : isDigitIn b c = true) :
+    c ≠ '-' ∧ c ≠ '+' ∧ c ≠ '/' ∧ c ≠ 'x' ∧ c ≠ 'X' ∧ isSpace c = false := by
+  have := isDigitIn_range b c h
+  have e : ∀ d : Char, (d.toNat < 48 ∨ 102 < d.toNat) → c ≠ d := by
+    intro d hd hcd; rw [hcd] at this; omega
+  refine ⟨e _ (by decide), e _ (by decide), e _ (by decide), e _ (by decide), ?_, ?_⟩
+  · intro hX
+    rw [hX] at h; unfold isDigitIn at h; split at h
+    · revert h; decide
+    · have : decide ('X' ≤ '9') = false := by decide
+      simp at h
+  · simp only [isSpace, Bool.or_eq_false_iff, decide_eq_false_iff_not]
+    exact ⟨⟨⟨⟨⟨e _ (by decide), e _ (by decide)⟩, e _ (by decide)⟩, e _ (by decide)⟩, e _ (by decide)⟩, e _ (by decide)⟩
+
+/-- sign, digits of the base, then something that is not a digit: the field is read whole -/
+theorem gmpscan_Z_field (b : Nat) (hb : b = 8 ∨ b = 10 ∨ b = 16) (sg body tail : List Char)
+    (hsg : sg = [] ∨ sg = ['-'] ∨ sg = ['+']) (hbody : body ≠ []) (hall : ∀ c ∈ body, isDigitIn b c = true)
+    (htail : ∀ c, tail.head? = some c → isDigitIn b c = false) (hlen : (sg ++ (body ++ tail)).length ≤ 2147483646) :
+    gmpscan { base := b, type := 'Z' } (sg ++ (body ++ tail)) =
+      { ret := ((sg.length + body.length : Nat) : Int), rest := tail,
+        val := .z (if sg = ['-'] then -(strVal b body : Int) else (strVal b body : Int)) } := by
+  have hb0 : b ≠ 0 := by omega
+  obtain ⟨c0, t0, hc0⟩ : ∃ c0 t0, body = c0 :: t0 := by
+    cases body with
+    | nil => exact absurd rfl hbody
+    | cons c t => exact ⟨c, t, rfl⟩
+  have hc0d := digit_not_special b c0 (hall c0 (by rw [hc0]; exact List.mem_cons_self))
+  have hne : sg ++ (body ++ tail) ≠ [] := by simp [hbody]
+  have hsl : signLen (sg ++ (body ++ tail)) = sg.length := by
+    rcases hsg with h | h | h <;> subst h
+    · simp [hc0, signLen, hc0d.1, hc0d.2.1]
+    · simp [signLen]
+    · simp [signLen]
+  have hss : signStore (sg ++ (body ++ tail)) = (if (decide (sg = ['-'])) = true then ['-'] else []) := by
+    rcases hsg with h | h | h <;> subst h
+    · simp [hc0, signStore, hc0d.1]
+    · simp [signStore]
+    · simp [signStore]
+  rw [gmpscan_Z_fixed _ rfl hb0 _ hne]
+  have hW : scanWidth { base := b, type := 'Z' } = 2147483646 := rfl
+  simp only [hsl, hss, hW, List.drop_left]
+  have htk : List.take (2147483646 - sg.length) (body ++ tail) = body ++ tail := by
+    apply List.take_of_length_le; simp only [List.length_append] at hlen ⊢; omega
+  rw [htk, takeWhile_stop _ body tail hall htail]
+  have hemp : body.isEmpty = false := by rw [hc0]; rfl
+  simp only [hemp, Bool.false_eq_true, false_or, if_false]
+  rw [setStr_digits b hb _ body hbody hall]
+  simp only [Option.elim, GResult.mk.injEq, true_and]
+  refine ⟨?_, ?_⟩
+  · rw [← List.append_assoc, List.drop_left']; simp
+  · simp
+
 end Mpir.Scanf
